@@ -16,6 +16,7 @@ import ast
 import contextlib
 import os
 import sys
+import warnings
 
 import numpy as np
 
@@ -73,7 +74,9 @@ class _UfuncWrapper:
         if "where" in kw and kw.get("out") is None and len(args) <= real.nin and not isinstance(kw["where"], bool):
             site = _caller_site()
             if site is not None:          # only poison calls made by the library under test
-                probe = real(*args, **kw)
+                with warnings.catch_warnings():
+                    warnings.simplefilter("ignore")
+                    probe = real(*args, **kw)
                 if isinstance(probe, np.ndarray):
                     fv = _fill_value(probe.dtype, self._fill)
                     if fv is not None:
